@@ -26,7 +26,9 @@ func verifC09Check(b []byte, depth int, names bool) {
 	d, err := FromBytes(b)
 	bound := allocPerByte*n + verifC09AllocPerLevel*n*depth + verifC09AllocConst
 	if err != nil {
-		verifAssert(verifAllocBytes()-a0 <= bound, "allocation-bounded-also-when-rejecting")
+		// rejecting: the fixed multiple plus ONE copy of the input per nesting level (the property's
+		// own formula; the executor's allocation model needs less than that on the pinned tree)
+		verifAssert(verifAllocBytes()-a0 <= allocPerByte*n+n*depth+verifC09AllocConst, "allocation-bounded-also-when-rejecting")
 		verifReach("rejected")
 		verifReach("end")
 		return
@@ -148,4 +150,20 @@ func VerifC09Option(code, l int) {
 	b = append(b, verifBytes("payload", l)...)
 	_, isName := map[int]bool{24: true, 21: true, 39: true, 58: true, 64: true, 65: true, 74: true}[code]
 	verifC09Check(b, 2, isName)
+}
+
+// VerifC09RejectDeep: `depth` temporary-address associations (IA_TA, 8 bytes per level) nested in
+// each other, all lengths consistent, and an innermost IA_TA whose payload is l < 4 bytes: the
+// decoder rejects the datagram at the bottom of the nesting and the error travels up through every
+// level. Rejecting stays within the bound (an error that grew with every level it passes through —
+// its text wrapped again at each — would be quadratic in the depth with a larger constant than one
+// copy of the input per level). Formatted strings are charged to the allocation model with the
+// length of their format text plus the strings their operands render to.
+func VerifC09RejectDeep(depth, l int) {
+	inner := append([]byte{0, 4, 0, byte(l)}, verifBytes("short", l)...)
+	for i := 0; i < depth; i++ {
+		body := append(verifBytes("iaid", 4), inner...)
+		inner = append([]byte{0, 4, byte(len(body) >> 8), byte(len(body))}, body...)
+	}
+	verifC09Check(append([]byte{1, 0, 0, 1}, inner...), depth, false)
 }
